@@ -191,9 +191,6 @@ def h_cond(ca: int, cb: int) -> bool:
     for k in range(5):
         if cb == k and c01.BCLASSES[k] is not None:
             defines.append(c01.BCLASSES[k])
-    STATS["compared"] += 1
-    if P.get("_twin"):
-        return False
     why = None
     with scen.untraced():
         fs = _fs_cond()
@@ -202,6 +199,9 @@ def h_cond(ca: int, cb: int) -> bool:
             exp, _tus = ref_cpp.run_platforms(fs, conf)
         except ref_cpp.Diagnostic:
             return True
+        STATS["compared"] += 1  # (after the reference: programs it rejects for every -D class must show up as vacuous)
+        if P.get("_twin"):
+            return False
         if P.get("inherit"):
             # the header is parsed with the including file's language: its '!' comment line is not counted
             exp["p"].discard(("/r/inc.h", 1))
